@@ -365,6 +365,9 @@ class S256Point(Point):
         return self.p2tr_script(merkle_root, tweak).address(network)
 
     def verify(self, z, sig):
+        # the point at infinity is not a public key: nothing verifies under it
+        if self.x is None:
+            return False
         # remember sig.r and sig.s are the main things we're checking
         # r and s have to be in the range [1, N-1]
         if not (1 <= sig.r < N and 1 <= sig.s < N):
